@@ -9,6 +9,7 @@
    (ow, gr) = (true, false); the fixes of D14 and D3 give (false, true). *)
 From Coq Require Import List NArith Bool String.
 From SV Require Import lib.Bytes lib.Tmpl gen.GenClaims model.Claims proofs.ClaimsProofs.
+From SV Require Import model.GlobRows proofs.ClaimsRegProofs proofs.GlobRowsProofs.
 Local Notation "x ++ y" := (List.app x y) (right associativity, at level 60) : list_scope.
 Import ListNotations.
 Open Scope N_scope.
@@ -57,7 +58,7 @@ Proof. exact recorded_match_never_product. Qed.
    register_nglob tests the regex against the attached products (gr = true, the fix of D3) ... *)
 Theorem C08_glob_never_matches_product_when_scanned :
   forall gm ow st g p cl,
-    reachable gm ow true st -> In g (globs st) -> In (p, cl) (claims st) -> gm (g_pat g) p = true ->
+    reachable gm ow true st -> In g (globs st) -> In (p, cl) (claims st) -> gm (g_key g) p = true ->
     c_role cl = RStatic.
 Proof.
   intros gm ow st g p cl H. exact (inv_gfull _ _ _ (reachable_inv gm ow true st H) eq_refl g p cl).
@@ -67,12 +68,12 @@ Qed.
    the recorded matches (defect D3). *)
 Definition C08_glob_clause_full (gm : str -> str -> bool) (ow gr : bool) : Prop :=
   forall st g p cl,
-    reachable gm ow gr st -> In g (globs st) -> In (p, cl) (claims st) -> gm (g_pat g) p = true ->
+    reachable gm ow gr st -> In g (globs st) -> In (p, cl) (claims st) -> gm (g_key g) p = true ->
     c_role cl = RStatic.
 
 Theorem C08_glob_never_matches_product_refuted :
   exists st g p cl, reachable w_gm true false st /\ In g (globs st) /\ In (p, cl) (claims st) /\
-                    c_role cl = ROutput /\ w_gm (g_pat g) p = true.
+                    c_role cl = ROutput /\ w_gm (g_key g) p = true.
 Proof. exact glob_never_matches_product_refuted. Qed.
 
 (* ---- 2. repeating a declaration by the same creator in the same role is a no-op ------------ *)
@@ -89,7 +90,7 @@ Proof. exact same_creator_redeclare_noop. Qed.
 
 (* D3: glob pattern first, then a step output it matches: rejected; the reverse order: accepted. *)
 Theorem C08_glob_vs_planned_output_refuted :
-  let r1 := RqGlob w_B w_pat [] in
+  let r1 := RqGlob w_B w_pat [] [] in
   let r2 := RqAmend w_A [] [w_atxt] [] in
   reachable w_gm true false w_boot /\
   accepted (step w_gm true false w_boot r1) = true /\ accepted (step w_gm true false w_boot r2) = true /\
@@ -354,12 +355,12 @@ Proof. vm_compute. repeat split; reflexivity. Qed.
    exactly when the regex matches the product, else accepted in both orders with the same state.
    For the current tree (gr = false) this pair is refuted above (known finding D3). *)
 Theorem C08_glob_product_commute_when_scanned :
-  forall gm st sg pat ms s r p,
+  forall gm st sg pat subs ms s r p,
     Inv gm true st -> product_role r = true ->
-    accepted (step gm false true st (RqGlob sg pat ms)) = true ->
+    accepted (step gm false true st (RqGlob sg pat subs ms)) = true ->
     accepted (step gm false true st (amend1 s r p)) = true ->
-    both (run gm false true st [RqGlob sg pat ms; amend1 s r p])
-         (run gm false true st [amend1 s r p; RqGlob sg pat ms]).
+    both (run gm false true st [RqGlob sg pat subs ms; amend1 s r p])
+         (run gm false true st [amend1 s r p; RqGlob sg pat subs ms]).
 Proof. exact glob_product_commute. Qed.
 
 Example C08_commute_examples :
@@ -376,24 +377,24 @@ Example C08_commute_examples :
     = run w_gm false true st [RqStatic (CStep w_B) [w_d ++ [47; 120]]; RqTree (CStep w_B) w_d] /\
   accepted (run w_gm false true st [RqTree (CStep w_B) w_d; RqStatic (CStep w_B) [w_d ++ [47; 120]]]) = true /\
   (* pattern *.txt and output a.txt with the scanning register_nglob: same message both ways *)
-  run w_gm false true st [RqGlob w_B w_pat []; amend1 w_A ROutput w_atxt]
+  run w_gm false true st [RqGlob w_B w_pat [] []; amend1 w_A ROutput w_atxt]
     = Err (MGlobProduct w_pat w_B w_atxt w_A) /\
-  run w_gm false true st [amend1 w_A ROutput w_atxt; RqGlob w_B w_pat []]
+  run w_gm false true st [amend1 w_A ROutput w_atxt; RqGlob w_B w_pat [] []]
     = Err (MGlobProduct w_pat w_B w_atxt w_A).
 Proof. vm_compute. repeat split; reflexivity. Qed.
 
 (* Glob versus build product, decision level, once register_nglob scans the products: both
    sites decide by `gm pat p` and raise the same structured message. *)
 Theorem C08_glob_product_either_order_partial :
-  forall gm (s pat lbl p : str) (ms : list str) (cl : claim),
+  forall gm (s pat lbl p : str) (subs : subs_t) (ms : list str) (cl : claim),
     c_role cl <> RStatic -> c_by cl = CStep lbl ->
-    glob_check gm [mkGlob s pat ms] lbl [p] =
-      (if gm pat p then Err (MGlobProduct pat s p lbl) else Ok tt) /\
+    glob_check gm [mkGlob s pat subs ms] lbl [p] =
+      (if gm (gkey pat subs) p then Err (MGlobProduct pat s p lbl) else Ok tt) /\
     (match min_entry (filter (fun pc : str * claim =>
-                                negb (role_eqb (c_role (snd pc)) RStatic) && gm pat (fst pc)) [(p, cl)]) with
+                                negb (role_eqb (c_role (snd pc)) RStatic) && gm (gkey pat subs) (fst pc)) [(p, cl)]) with
      | Some (q, cl') => Err (MGlobProduct pat s q (creator_label (c_by cl')))
      | None => Ok tt
-     end) = (if gm pat p then Err (MGlobProduct pat s p lbl) else Ok tt).
+     end) = (if gm (gkey pat subs) p then Err (MGlobProduct pat s p lbl) else Ok tt).
 Proof. exact glob_product_either_order. Qed.
 
 (* ---- 4. the messages do not depend on the order -------------------------------------------- *)
@@ -475,8 +476,94 @@ Proof. vm_compute. reflexivity. Qed.
 Example C08_example :
   let st := run_skip w_gm true false w_boot
               [RqStatic (CStep w_A) [w_d ++ [47; 120]]; RqTree (CStep w_A) w_d;
-               RqAmend w_B [] [w_atxt] []; RqGlob w_B (w_d ++ [47; 42]) [w_d ++ [47; 120]]] in
+               RqAmend w_B [] [w_atxt] []; RqGlob w_B (w_d ++ [47; 42]) [] [w_d ++ [47; 120]]] in
   lookup (w_d ++ [47; 120]) (claims st) = Some (mkClaim RStatic (CTree (w_d ++ [47]))) /\
   lookup w_atxt (claims st) = Some (mkClaim ROutput (CStep w_B)) /\
   trees st = [(w_d ++ [47], CStep w_A)] /\ List.length (globs st) = 1%nat.
+Proof. vm_compute. repeat split; reflexivity. Qed.
+
+(* ---- 5. registrations of glob patterns are never lost --------------------------------------- *)
+(* A pattern owns nothing, but every accepted registration must keep guarding the paths its regex
+   matches (the "pattern first, product second" half of the glob clause). The nglob table is a
+   multiset keyed by (step, pattern, subs): one step may register one pattern several times, with
+   equal or with different substitution constraints. *)
+
+(* Declaration layer, ANY request list from ANY state: the table afterwards is the table before
+   followed by exactly one row per accepted registration, in arrival order; no request removes,
+   merges, supersedes or rewrites a row. *)
+Theorem C08_registrations_only_appended :
+  forall gm ow gr rs st,
+    globs (run_skip gm ow gr st rs) = globs st ++ accepted_rows gm ow gr st rs.
+Proof. exact run_skip_globs_exact. Qed.
+
+Theorem C08_registration_never_lost_by_declarations :
+  forall gm ow gr rs st g, In g (globs st) -> In g (globs (run_skip gm ow gr st rs)).
+Proof. exact registration_never_lost. Qed.
+
+Theorem C08_accepted_registration_recorded :
+  forall gm ow gr st s pat subs ms st' rs,
+    step gm ow gr st (RqGlob s pat subs ms) = Ok st' ->
+    In (mkGlob s pat subs (sort_uniq (filter (gm (gkey pat subs)) ms)))
+       (globs (run_skip gm ow gr st' rs)).
+Proof. exact accepted_registration_recorded. Qed.
+
+(* per key (step, pattern, subs): rows after = rows before + accepted registrations of the key *)
+Theorem C08_registration_count_exact :
+  forall gm ow gr rs st s pat subs,
+    reg_count s pat subs (globs (run_skip gm ow gr st rs)) =
+    (reg_count s pat subs (globs st) + reg_count s pat subs (accepted_rows gm ow gr st rs))%nat.
+Proof. exact reg_count_exact. Qed.
+
+(* every row of the table rejects a later product that its stored regex matches *)
+Theorem C08_registered_pattern_guards_products :
+  forall gm st g lbl ps p,
+    In g (globs st) -> In p ps -> gm (g_key g) p = true ->
+    exists m, glob_check gm (globs st) lbl ps = Err m.
+Proof. exact registered_pattern_guards_products. Qed.
+
+(* Whole life cycle of the rows (model/GlobRows.v; the writers of the table are enumerated from
+   the source by the translator): a registration survives every operation sequence that contains
+   no removal path of its step (Step.reset_for_rerun, deletion of the detached step node) ... *)
+Theorem C08_registration_survives_without_removal :
+  forall os t r,
+    In r (rows t) -> forallb (fun o => negb (removes (r_step r) o)) os = true ->
+    exists r', In r' (rows (run_ops t os)) /\ reg_of r' = reg_of r.
+Proof. exact registration_survives. Qed.
+
+(* ... so a registration that is gone has met one of the documented removal paths. *)
+Theorem C08_registration_lost_only_by_removal :
+  forall os t r,
+    In r (rows t) ->
+    (forall r', In r' (rows (run_ops t os)) -> reg_of r' <> reg_of r) ->
+    exists o, In o os /\ removes (r_step r) o = true.
+Proof. exact registration_lost_only_by_removal. Qed.
+
+Theorem C08_registration_key_count_exact :
+  forall os t s pat subs,
+    forallb (fun o => negb (removes s o)) os = true ->
+    key_count s pat subs (run_ops t os) =
+    (key_count s pat subs t + List.length (filter (adds_key s pat subs) os))%nat.
+Proof. exact key_count_exact. Qed.
+
+Theorem C08_registration_ids_fresh :
+  forall os t, ids_fresh t -> ids_fresh (run_ops t os).
+Proof. exact ids_fresh_run. Qed.
+
+Theorem C08_visible_registrations :
+  forall t r, In r (visible t) <-> In r (rows t) /\ mem_str (r_step r) (det t) = false.
+Proof. exact visible_spec. Qed.
+
+(* Non-vacuity: two registrations of one pattern by one step with different constraints, then the
+   first once more: three rows; a reset of another step, a detach/attach of the step itself and
+   a rewrite of the matches of row 2 lose nothing; the reset of the step removes its rows. *)
+Example C08_registrations_example :
+  let pat := s2l "${*name}.txt" in
+  let sa := [(s2l "name", s2l "a*")] in
+  let sb := [(s2l "name", s2l "b*")] in
+  let t := run_ops empty_table
+             [OAdd w_B pat sa []; OAdd w_B pat sb []; OAdd w_B pat sa []; OAdd w_A pat sa [];
+              OReset w_A; ODetach w_B; OPersist 2 [s2l "b1.txt"]; OAttach w_B] in
+  key_count w_B pat sa t = 2%nat /\ key_count w_B pat sb t = 1%nat /\ key_count w_A pat sa t = 0%nat /\
+  List.length (visible t) = 3%nat /\
+  List.length (rows (apply_op t (OReset w_B))) = 0%nat.
 Proof. vm_compute. repeat split; reflexivity. Qed.
